@@ -174,6 +174,7 @@ PROPS["C03"]["parts"].append(dict(name="bus03", domain="bus", domain_module="bus
 
 # C09: a store closed by a Shutdown that gave up would swallow the records of everything published afterwards
 PROPS["C09"]["parts"].append(dict(name="shutdown09", domain="shutdown", domain_module="shutdown", gen=shutdown.gen, n_quick=20, n_thorough=400, chunk=8, jobs=8))
+PROPS["C03"]["parts"].append(dict(name="livechain03", domain="resume", domain_module="resume", gen=resume.gen_livechain, n_quick=8, n_thorough=200, chunk=4))
 PROPS["C03"]["parts"].append(dict(name="shutdown03", domain="shutdown", domain_module="shutdown", gen=shutdown.gen, n_quick=20, n_thorough=400, chunk=8, jobs=8))
 
 # C04 on the sequential machine as well: once handlers with filters, dead contexts (cancelled and deadline-expired), the
